@@ -306,7 +306,8 @@ STRUCTURAL = {
 
 # self-recursions that carry their own visited-set guard: (function, text that must appear in the guard)
 SELF_GUARDED = {
-    'EvalCtx.declarations': ('cname is r for r in result', 'a name already listed is not followed again'),
+    'EvalCtx.declarations': 'a name already listed is not followed again (decided by sa/api_model.declarations_model: an import resolving '
+                            'to itself terminates)',
 }
 
 
@@ -320,6 +321,8 @@ def check_recursion(repo, res, facts, cg):
                   'recurses unguarded (a cycle made only of such values recurses until RecursionError)'
                   % (g.qual, unparse(b[0])[:60] if b else '', p['marker']),
                   sample='%s: every call is made with the marker %s set' % (g.qual, p['marker']))
+    from .. import api_model
+    self_guard_ok = all(r[2] for r in api_model.declarations_model(repo) if r[0] == 'cycle')
     provs = {p['fi'].key for p in plist}
     keys = [k for k in facts.funcs if not k.startswith('supp/umsgpack.py') and k not in provs]
     adj = {}
@@ -331,16 +334,8 @@ def check_recursion(repo, res, facts, cg):
             a, b = fi.qual, facts.funcs[c].qual
             if (a, b) in STRUCTURAL:
                 continue
-            if a == b and a in SELF_GUARDED:
-                # the recursive call must be control dependent on the visited test
-                p = getattr(node, '_parent', None)
-                guarded = False
-                while p is not None and p is not fi.node:
-                    if isinstance(p, ast.If) and SELF_GUARDED[a][0] in unparse(p.test):
-                        guarded = True
-                    p = getattr(p, '_parent', None)
-                if guarded:
-                    continue
+            if a == b and a in SELF_GUARDED and self_guard_ok:
+                continue        # its visited-set guard is decided by interpretation on a cyclic input (see below)
             adj.setdefault(k, set()).add(c)
     # Tarjan SCC
     index = {}
@@ -400,7 +395,15 @@ def check_recursion(repo, res, facts, cg):
                 if cyc:
                     break
             work = nxt
-        key = 'unguarded recursion through ' + ', '.join(names[:4]) + (' ...' if len(names) > 4 else '')
+        # private module-level helpers that only members of the component call are part of those members' bodies
+        def helper(k):
+            fi = facts.funcs[k]
+            if fi.cls is not None or not fi.name.startswith('_'):
+                return False
+            callers = {c for c in keys if any(t and x == k for x, t, _n in cg.edges.get(c, []))}
+            return callers <= set(comp)
+        core = sorted(facts.funcs[k].qual for k in comp if not helper(k)) or names
+        key = 'unguarded recursion through ' + ', '.join(core[:4]) + (' ...' if len(core) > 4 else '')
         res.check('C08-R4', key, False, facts.funcs[start].rel, facts.funcs[start].node.lineno,
                   'the functions %s call each other (typed edges) on a cycle %s that contains neither a re-entrancy '
                   'guard nor a reasoned structural recursion: a cyclic input (mutual star imports, inheritance '
